@@ -25,6 +25,7 @@ import CBV.Lemmas.C04Parity
 import CBV.Lemmas.C04Chop
 import CBV.Lemmas.C04Hist
 import CBV.Lemmas.C04Prov
+import CBV.Lemmas.C04Total
 
 namespace CBV.Prop
 open CBV.C03 (Vals Q Oracle Tol calculate firstCell lastCell TOL absR)
@@ -356,6 +357,33 @@ theorem T_C04_shared_exact_partial (inp : Inp) (hu : Uniform inp) (st : St) (h :
   unfold secOn
   rw [hu c.id c.inv w0 w]
 
+/-! ### round 6e: the count-based kinds discharge the wire-independence hypothesis on the composed model -/
+
+/-- when every user chop is given by its count and a positive cell-to-cell ratio (`count`, `count + c2c_expansion`,
+    default `preserve`) and every wire has positive length, every evaluation of the calculator succeeds
+    (`Lemmas/C04Total.lean`: no guard rejects, nothing divides by zero, no solver is asked) and the expansion M-PROP
+    receives does not depend on the wire -/
+theorem T_C04_uniform_count_kinds (g : Geo) (hk : countKindsB g = true) (hl : ∀ w, 0 < g.len w) : Uniform (toInp g) := by
+  intro id inv w w'
+  rw [toInp_ev]
+  cases hu : g.uchops[id]? with
+  | none => unfold evG wireVals; rw [hu]
+  | some u =>
+    obtain ⟨hp, h0, h1, n, r, hn, hr, hv⟩ := countKinds_of hk hu
+    obtain ⟨res, hres, hc, hcc⟩ := resolved_count_kind hl hu h0 h1 hn hr hv
+    obtain ⟨v, hv1⟩ := wireVals_count_kind hl hu hp h0 h1 hn hr hv inv w
+    obtain ⟨v', hv2⟩ := wireVals_count_kind hl hu hp h0 h1 hn hr hv inv w'
+    exact T_C04_c2c_same_on_all_wires g id u res n r hu hp hres hc hn hcc (ne_of_gt hr) inv w w' v v' hv1 hv2
+
+/-- `T_C04_shared_exact_partial` without its hypothesis for the count-based kinds: on the composed model, after a
+    successful `Mesh.grade`, every section of every wire — own, or copied through any chain of coincident wires of any
+    blocks — is exactly (no tolerance) what some chop yields on this very wire, read from one end or the other.
+    (Still open, as stated at `T_C04_shared_exact_partial`: that the chop is one the other block of the edge holds.) -/
+theorem T_C04_shared_exact_count_kinds (g : Geo) (hk : countKindsB g = true) (hl : ∀ w, 0 < g.len w) (st : St)
+    (h : run (toInp g) = .ok st) (w : Nat) :
+    ∀ d ∈ specOf st w, ∃ (c : Chop) (k : Nat), d = flipN k (secOn (toInp g) w c) :=
+  T_C04_shared_exact_partial (toInp g) (T_C04_uniform_count_kinds g hk hl) st h w
+
 end CBV.Prop
 
 namespace CBV.Prop.Examples
@@ -456,5 +484,28 @@ example : Uniform (twoBoxes 5 0) := fun _ _ _ _ => rfl
     yields, one section of 5 cells -/
 example : (match run (twoBoxes 5 0) with | .ok st => (specOf st 16).map (·.count) | .error _ => []) = [5] := by
   decide +kernel
+
+/-! round 6e -/
+
+/-- the two boxes with count-based chops only (block 0: 4 cells, 5 cells with ratio 6/5, 3 cells; block 1: 2 cells along x),
+    edges of length 1 and, on block 1's unshared y edges, 8/3 -/
+def twoBoxesC : Geo where
+  nBlocks := 2
+  verts := [[0, 1, 2, 3, 4, 5, 6, 7], [1, 8, 9, 2, 5, 10, 11, 6]]
+  len := fun w => if w = 17 ∨ w = 18 then 8 / 3 else 1
+  uchops := [⟨0, 1, { count := some 4, c2c := some 1 }, .c2c⟩, ⟨1, 1, { count := some 5, c2c := some (6 / 5) }, .c2c⟩,
+             ⟨2, 1, { count := some 3, c2c := some 1 }, .c2c⟩, ⟨3, 1, { count := some 2, c2c := some 1 }, .c2c⟩]
+  tol := {}
+  oa := fun _ => {}
+  ow := fun _ _ _ => {}
+
+/-- non-vacuity of `T_C04_uniform_count_kinds` / `T_C04_shared_exact_count_kinds`: the kinds check holds, the lengths are
+    positive, the run succeeds, and the long edge 17 carries the same expansion (6/5)^4 as the short shared edge 16 -/
+example : countKindsB twoBoxesC = true := by decide +kernel
+example : ∀ w, 0 < twoBoxesC.len w := by
+  intro w; unfold twoBoxesC; simp only; split <;> norm_num
+example : (match run (toInp twoBoxesC) with
+    | .ok st => (specOf st 17).map (·.exp) ++ (specOf st 16).map (·.exp)
+    | .error _ => []) = [1296 / 625, 1296 / 625] := by decide +kernel
 
 end CBV.Prop.Examples
